@@ -209,6 +209,17 @@ pub fn gen_c03(rng: &mut Rng, tier: Tier) -> MsgScn {
     let mut c = plain(Base::Cred(0), rand_fmt(rng));
     c.expand = Some(Expand::Subsets { max_n, sample, seed: rng.next_u64() });
     cases.push(c);
+    // every permutation of short lists (order independence), seeded ones otherwise
+    let mut c = plain(rng.pick(&bases).clone(), rand_fmt(rng));
+    c.expand = Some(Expand::Permutations {
+        max_n: match tier {
+            Tier::Quick => 4,
+            Tier::Thorough => 5,
+        },
+        sample: 12,
+        seed: rng.next_u64(),
+    });
+    cases.push(c);
     let n_cases = match tier {
         Tier::Quick => 28,
         Tier::Thorough => 120,
@@ -530,6 +541,10 @@ pub fn gen_c10(rng: &mut Rng, tier: Tier) -> MsgScn {
                     Tier::Quick => 12,
                     Tier::Thorough => 64,
                 })
+            }
+            Some(Expand::Permutations { max_n, sample, .. }) => {
+                *max_n = 3;
+                *sample = 4;
             }
             _ => {}
         }
